@@ -383,6 +383,28 @@ def clean_argspec(spec: Any) -> Any:
     return ArgSpec(spec.name, {k: tuple(clean_value(x) for x in vs) for k, vs in spec.parameters.items()})
 
 
+def pipe_case(items: list[tuple[type, list[dict[str, Any]], Any]], available: dict[str, Any]) -> dict[str, Any]:
+    from xdsl.passes import PassPipeline
+
+    text = ",".join(str(inst) for _, _, inst in items)
+    out, _ = real_parse(text)
+    res: dict[str, Any] = {"e": "", "insts": []}
+    text2 = ""
+    try:
+        pp = PassPipeline.parse_spec(available, text)
+        if len(pp.passes) == len(items) and all(type(p) is cls for p, (cls, _, _) in zip(pp.passes, items)):
+            res["insts"] = [inst_values(p, f, False) for p, (_, f, _) in zip(pp.passes, items)]
+        else:
+            res = {"e": "wrong-passes", "insts": []}
+        text2 = ",".join(str(p) for p in pp.passes)
+    except (KeyboardInterrupt, SystemExit):
+        raise
+    except BaseException as e:  # noqa: BLE001
+        res = {"e": exc_class(e), "insts": []}
+    return {"kind": "pipe", "elems": [{"fields": strip_py(f), "name": cps(cls.name), "inst": inst_values(inst, f, True)} for cls, f, inst in items],
+            "text": cps(text), "num": num_table(text), "out": out, "res": res, "text2": cps(text2)}
+
+
 def gen_argspec(rng) -> Any:
     from xdsl.utils.arg_spec import ArgSpec
 
@@ -532,6 +554,30 @@ def run(ctx: Ctx):
                     add(pass_case(cls, fields, twin), f"pass {twin!r}")
                     n_twins += 1
     ctx.coverage["pass_instances"] = n_inst
+    # (a') pipelines of several passes through PassPipeline.parse_spec, the same class repeated with other values
+    rng = ctx.rng("pipe")
+    available = {cls.name: (lambda cls=cls: cls) for cls, _ in classes}
+    n_pipes = 0
+    for _ in range(1500 if q else 30000):
+        items = []
+        k = rng.choice([2, 2, 3, 4])
+        base = rng.sample(classes, k=min(k, 2))
+        for _ in range(k):
+            cls, fields = rng.choice(base)
+            inst = make_instance(rng, cls, fields)
+            if inst is not None:
+                items.append((cls, fields, inst))
+        if len(items) < 2:
+            continue
+        c = pipe_case(items, available)
+        add(c, f"pipeline of passes {[repr(i) for _, _, i in items]}")
+        n_pipes += 1
+        if classify(c) != "other":
+            twin = [(cls, f, clean_instance(cls, f, i)) for cls, f, i in items]
+            if all(t[2] is not None for t in twin):
+                add(pipe_case(twin, available), f"pipeline of passes {[repr(i) for _, _, i in twin]}")
+                n_twins += 1
+    ctx.coverage["pass_pipelines"] = n_pipes
     # (b) ArgSpecs and pipelines
     rng = ctx.rng("spec")
     for _ in range(3000 if q else 60000):
@@ -553,7 +599,7 @@ def run(ctx: Ctx):
     ctx.coverage["texts_exhaustive"] = n_exh
     ctx.coverage["texts_exhaustive_rule"] = f"every text over the {len(SIGMA)}-character alphabet {SIGMA!r} up to length {3 if q else 4}"
     rng = ctx.rng("text")
-    printed = [bytes(c["text"]).decode("latin1") if False else "".join(map(chr, c["text"])) for c in cases if c["kind"] in ("pass", "rt")]
+    printed = ["".join(map(chr, c["text"])) for c in cases if c["kind"] in ("pass", "rt", "pipe")]
     for _ in range(6000 if q else 120000):
         r = rng.random()
         if r < 0.5:
@@ -587,7 +633,7 @@ def run(ctx: Ctx):
         text = "".join(map(chr, c["text"]))
         if clause in VIOL:
             ctx.violate(f"{what[idx]}: {clause} fails (text {text!r}, parsed {c['out']['e'] or 'ok'}"
-                        + (f", from_spec {c['inst2']['e'] or 'ok'}" if "inst2" in c else "") + ")",
+                        + (f", from_spec {c['inst2']['e'] or 'ok'}" if "inst2" in c else "") + (f", parse_spec {c['res']['e'] or 'ok'}" if "res" in c else "") + ")",
                         {"kind": c["kind"], "clause": clause, "class": classify(c), "text": text, "cls": c.get("cls", ""), "case": c}, clause=clause)
         else:
             n_div += 1
@@ -614,6 +660,13 @@ def classify(c: dict[str, Any]) -> str:
                     yield from v[1]
                 elif v[0] != "N":
                     yield v
+        elif c["kind"] == "pipe":
+            for el in c["elems"]:
+                for v in el["inst"]:
+                    if v[0] == "T":
+                        yield from v[1]
+                    elif v[0] != "N":
+                        yield v
         elif c["kind"] == "rt":
             for s in c["specs"]:
                 for _k, vs in s["params"]:
@@ -624,8 +677,9 @@ def classify(c: dict[str, Any]) -> str:
             tags.add("string-with-cr-ff-vt")
         if v[0] == "f" and (v[2] == ["nan"] or v[1][0] & 0x7FF0 == 0x7FF0):
             tags.add("non-finite-float")
-    if c["kind"] == "pass":
-        for f, v in zip(c["fields"], c["inst"]):
+    groups = [(c["fields"], c["inst"])] if c["kind"] == "pass" else [(el["fields"], el["inst"]) for el in c.get("elems", [])]
+    for fs, vs in groups:
+        for f, v in zip(fs, vs):
             if v == ["T", []] and f["union"] and any(a[0] == "none" for a in f["alts"]):
                 tags.add("empty-tuple-in-optional-tuple-field")
     return "+".join(sorted(tags)) or "other"
